@@ -52,7 +52,9 @@ theorem yieldGroupAttrs_no_crash (tasks : Tasks) (d0 : TDict) (base : RawVal) (e
   · rename_i e' hd
     cases h
     exact absurd hd (dictToTask_no_crash _ e)
-  · simp at h
+  · split at h
+    · simp at h
+    · split at h <;> simp at h
 
 theorem yieldPlain_crash (tasks : Tasks) (d0 : TDict) (bn : RawVal) (e : Exn)
     (h : yieldPlain tasks d0 bn = .error (.crash e)) : bn.hashable = false := by
@@ -128,7 +130,7 @@ theorem yieldAll_no_crash (fn : Name) (ys : List Yielded) (tasks : Tasks) (e : E
       rw [hy] at h; simp only at h; cases h
       cases y with
       | other => simp [yieldOne] at hy
-      | task t => simp [yieldOne] at hy
+      | task t => simp only [yieldOne] at hy; split at hy <;> simp at hy
       | dict d nf bf => exact yieldDict_no_crash tasks fn d nf bf e hy
     | ok tasks' =>
       rw [hy] at h; simp only at h
